@@ -52,6 +52,9 @@ THEOREMS = [
     "C15_honest_transfer_heals",
     "C15_user_dir_never_deleted_given",
     "C15_gen_download_shape",
+    "C15_multi_only_no_candidate_is_skipped",
+    "C15_multi_page_exhausted_fails_run",
+    "C15_multi_failed_transfer_fails_run",
 ]
 RULE = ("histories = (initial wheel directory, candidate list with advertised digests, server fault script): per file the "
         "directory holds nothing / the advertised file / a crash prefix of it (every prefix length for one wheel per run) / "
@@ -80,7 +83,7 @@ ASSUMPTIONS = [
     "candidates with equal sort keys are tried in listing order (sorted(reverse=True) is stable); the end-to-end listings keep such ties in the order the model is given",
     "the prerelease fallback of do_get_candidate (second pass with prereleases allowed) is outside the model: generated versions are final releases",
 ]
-LEVEL_TEXT = ("31 theorems proved in Coq over Gallina models of _do_download/resolve_candidate/do_get_candidate/_scan_page_links "
+LEVEL_TEXT = ("34 theorems proved in Coq over Gallina models of _do_download/resolve_candidate/do_get_candidate/_scan_page_links "
               "(all directories, crash prefixes, fault scripts, candidate lists; sha and the metadata verdict abstract) and of the "
               "exit paths of compile_main/compile_requirements (all stage-failure scripts, over facts regenerated from the source): "
               "reuse iff digest equal, every mismatching/partial file is replaced, a fresh file that cannot be read (any failure) is "
@@ -96,6 +99,7 @@ TECHNIQUE = "Rocq proof over Gallina models (finite-map lemmas, induction over c
 BASE_URL = "http://idx.invalid/simple/foo/"
 INDEX_URL = "http://idx.invalid/simple"
 PAGE_URL = INDEX_URL + "/foo/"
+INDEX_A, INDEX_B = "http://idx-a.invalid/simple", "http://mirror-b.invalid/simple"
 ERROR_PAGE = b"<html><head><title>503 Service Unavailable</title></head><body>try later</body></html>"
 NOTFOUND_PAGE = b"<html><body><h1>404 Not Found</h1></body></html>"
 
@@ -156,16 +160,22 @@ class FakeSession(common.FakeSessionBase):
        ("B", status, body)  complete response      ("K", status, sent)  stream breaks after `sent`
        ("F",)               connection error       script exhausted -> connection error"""
 
-    def __init__(self, script: List[Tuple], page_script: Optional[List[Tuple]] = None) -> None:
+    def __init__(self, script: List[Tuple], page_script: Optional[List[Tuple]] = None,
+                 page_scripts: Optional[Dict[str, List[Tuple]]] = None) -> None:
         self.script = list(script)
         self.page_script = None if page_script is None else list(page_script)
+        self.page_scripts = {k: list(v) for k, v in (page_scripts or {}).items()}
         self.seen: List[str] = []
         self.page_seen = 0
+        self.pages_seen: Dict[str, int] = {}
 
     def get(self, url: str, *a: Any, **kw: Any):     # stream=, timeout=, headers= ...: all the same here
         import requests
         script = self.script
-        if self.page_script is not None and url == PAGE_URL:
+        if url in self.page_scripts:
+            self.pages_seen[url] = self.pages_seen.get(url, 0) + 1
+            script = self.page_scripts[url]
+        elif self.page_script is not None and url == PAGE_URL:
             self.page_seen += 1
             script = self.page_script
         else:
@@ -398,6 +408,60 @@ def gen_history(rng, malformed: bool) -> Dict[str, Any]:
             "allow_sdist": rng.random() < 0.8, "maxdg": rng.choice([None, None, None, 1, 2, 3]), "deflate": deflate}
 
 
+def gen_multi_history(rng) -> Dict[str, Any]:
+    """Two indexes sharing one wheel directory and one session.  Index A is asked first and is where the faults
+    are (page 5xx runs around the retry budget, file 5xx / broken transfers); B mostly carries other versions."""
+    r0 = rng.random()
+    deflate: Any = True if r0 < 0.4 else False
+    va = sorted(rng.sample(range(2, 7), rng.choice([1, 2, 2, 3])), reverse=True)
+    vb = sorted(rng.sample(range(1, 6), rng.choice([1, 1, 2])), reverse=True)
+    cands: List[Dict[str, Any]] = []
+    repos = []
+    seeds: Dict[str, bytes] = {}
+    script: List[Tuple] = []
+    for k, (idx, versions) in enumerate(((INDEX_A, va), (INDEX_B, vb))):
+        mine = []
+        for v in versions:
+            fn = f"foo-{v}.0-py3-none-any.whl"
+            content = true_content(fn, deflate)
+            other = true_content(f"foo-{(v % 6) + 1}.0-py3-none-any.whl", deflate)
+            c: Dict[str, Any] = {"file": fn, "ver": v, "sdist": False}
+            c["digest"] = gen_digest_kind(rng, False)
+            rr, rt = resources(fn, c["digest"], content, other)
+            base = idx + "/foo/"
+            c["res_real"], c["res_toy"] = base + rr, base + rt          # absolute hrefs: the log tells the indexes apart
+            if fn not in seeds and rng.random() < 0.35:
+                sk, sv = gen_seed(rng, fn, content, other, False)
+                if sv is not None:
+                    seeds[fn] = sv
+            sd = seeds.get(fn)
+            c["seed"] = "absent" if sd is None else "exact" if sd == content else "other"
+            hit = sd is not None and ((sd == content and c["digest"] == "ok") or (sd == other and c["digest"] == "wrong"))
+            if not hit:
+                if k == 0:
+                    rk, rv = gen_response(rng, content, other, rng.random() < 0.5)
+                else:
+                    rk, rv = ("good", ("B", 200, content)) if rng.random() < 0.8 else gen_response(rng, content, other, False)
+                c["resp"] = rk
+                script.append(rv)
+            else:
+                c["resp"] = "-"
+            mine.append(len(cands))
+            cands.append(c)
+        retries = rng.choice([0, 1, 3, 3]) if k == 0 else 3
+        r = rng.random()
+        if k == 1 or r < 0.45:
+            pages: List[Any] = [200] if rng.random() < 0.9 else [404]
+        elif r < 0.85:
+            n5 = rng.randrange(0, retries + 3)
+            pages = [rng.choice([500, 502, 503, 599]) for _ in range(n5)] + [rng.choice([200, 200, 404])]
+        else:
+            pages = [rng.choice([200, 404, 403, 503, "F"]) for _ in range(rng.randrange(0, 4))]
+        repos.append({"retries": retries, "page_seq": pages, "cands": mine})
+    return {"cands": cands, "repos": repos, "seeds": seeds, "script": script, "allow_sdist": True,
+            "maxdg": rng.choice([None, None, 1, 2]), "deflate": deflate}
+
+
 # ----------------------------------------------------------------------------------------
 # running a history on the real code
 
@@ -434,11 +498,24 @@ def impl_run(ctx: Ctx, mods, h: Dict[str, Any], level: str, wd: Path) -> Dict[st
         (wd / fn).write_bytes(b)
     fresh_process_state(P, MS)
     repo = P.PyPIRepository(INDEX_URL, str(wd), retries=h.get("retries", 3))
-    sess = FakeSession(h["script"], page_script_of(h) if level == "G" else None)
+    sess = FakeSession(h["script"], page_script_of(h) if level == "G" else None,
+                       page_scripts=multi_page_scripts(h) if level == "M" else None)
     repo.session = sess
     res: Any
     try:
-        if level == "G":
+        if level == "M":
+            from req_compile.repos.multi import PooledCandidateMultiRepository
+            inner = []
+            for k, (idx, r) in enumerate(zip((INDEX_A, INDEX_B), h["repos"])):
+                pr = P.PyPIRepository(idx, str(wd), retries=r["retries"],
+                                      index_type=P.IndexType.INDEX_URL if k == 0 else P.IndexType.EXTRA_INDEX_URL)
+                pr.session = sess
+                inner.append(pr)
+            multi = PooledCandidateMultiRepository(*inner)
+            dist, cached = multi.get_dist(pkg_resources.Requirement.parse("foo"), allow_source_dist=h["allow_sdist"],
+                                          max_downgrade=h["maxdg"])
+            res = ("OK", dist.candidate.filename, "1" if cached else "0")
+        elif level == "G":
             dist, cached = repo.get_dist(pkg_resources.Requirement.parse("foo"), allow_source_dist=h["allow_sdist"],
                                          max_downgrade=h["maxdg"])
             res = ("OK", dist.candidate.filename, "1" if cached else "0")
@@ -460,12 +537,24 @@ def impl_run(ctx: Ctx, mods, h: Dict[str, Any], level: str, wd: Path) -> Dict[st
     out = {"res": res, "dir": list_dir(wd), "log": strip_base(sess.seen), "rest": len(sess.script)}
     if level == "G":
         out["pages"] = sess.page_seen
+    if level == "M":
+        out["pages"] = [sess.pages_seen.get(idx + "/foo/", 0) for idx in (INDEX_A, INDEX_B)]
     return out
 
 
-def listing_html(h: Dict[str, Any]) -> bytes:
+def multi_page_scripts(h: Dict[str, Any]) -> Dict[str, List[Tuple]]:
+    out = {}
+    for idx, r in zip((INDEX_A, INDEX_B), h["repos"]):
+        cands = [h["cands"][i] for i in r["cands"]]
+        out[idx + "/foo/"] = [("F",) if s == "F" else ("B", s, listing_html(h, cands) if s == 200 else ERROR_PAGE)
+                              for s in r["page_seq"]]
+    return out
+
+
+def listing_html(h: Dict[str, Any], cands: Optional[List[Dict[str, Any]]] = None) -> bytes:
     # shuffled listing; files with equal sort keys (same version and type: the foreign-name wheel)
     # keep their relative order, because sorted(..., reverse=True) is stable (ties are C07/C20)
+    h = h if cands is None else dict(h, cands=cands)
     n = len(h["cands"])
     slots = list(range(n))
     rnd = __import__("random").Random(len(h["script"]) * 7919 + n)
@@ -514,6 +603,13 @@ def model_line(h: Dict[str, Any], level: str, metatab) -> str:
     if level == "R":
         return f"R {w} {cand_tokens(h['cands'][0])}"
     md = -1 if h["maxdg"] is None else h["maxdg"]
+    if level == "M":
+        reps = []
+        for r in h["repos"]:
+            cs = [h["cands"][i] for i in r["cands"]]
+            reps.append("{} {} {} {} {}".format(r["retries"], len(r["page_seq"]), " ".join(str(x) for x in r["page_seq"]),
+                                                len(cs), " ".join(cand_tokens(c) for c in cs)).replace("  ", " "))
+        return "M {} {} {} {} {}".format("1" if h["allow_sdist"] else "0", md, w, len(reps), " ".join(reps))
     return "S {} {} {} {} {}".format("1" if h["allow_sdist"] else "0", md, w, len(h["cands"]),
                                      " ".join(cand_tokens(c) for c in h["cands"]))
 
@@ -587,7 +683,9 @@ def toy_ok(h: Dict[str, Any]) -> bool:
 def history_summary(h: Dict[str, Any]) -> Dict[str, Any]:
     return {"cands": [{k: c[k] for k in ("file", "digest", "seed", "resp")} for c in h["cands"]],
             "script": [(r[0], r[1] if len(r) > 1 else None, len(r[2]) if len(r) > 2 else None) for r in h["script"]],
-            "allow_sdist": h["allow_sdist"], "maxdg": h["maxdg"]}
+            "allow_sdist": h["allow_sdist"], "maxdg": h["maxdg"],
+            **({"repos": [{"retries": r["retries"], "page_seq": r["page_seq"], "files": [h["cands"][i]["file"] for i in r["cands"]]}
+                          for r in h["repos"]]} if "repos" in h else {})}
 
 
 def history_to_json(h: Dict[str, Any]) -> Dict[str, Any]:
@@ -637,10 +735,15 @@ def run_histories(ctx: Ctx, mods, oracle: MetaOracle, items: List[Tuple[Dict[str
         ctx.obligation_broken("model-runner:C15", f"{len(answers)} answers for {len(lines)} cases")
         return
     for (h, level, tag, tab), io_, ans, line in zip(kept, impls, answers, lines):
+        pages_tail = None
+        if level == "M" and " PAGES " in ans:
+            ans, pages_tail = ans.split(" PAGES ")
         try:
-            mo = parse_model(ans, "S" if level == "G" else level, h)
+            mo = parse_model(ans, "S" if level in ("G", "M") else level, h)
         except Exception as ex:
             mo = {"res": ("?", ans[:200]), "dir": {}, "log": [], "rest": -1}
+        if pages_tail is not None:
+            mo["pages"] = [0 if t == "-" else int(t) for t in pages_tail.split()]
         if level == "G":
             pa = h["_page"]
             mo["pages"] = int(pa[2])
@@ -660,7 +763,7 @@ def run_histories(ctx: Ctx, mods, oracle: MetaOracle, items: List[Tuple[Dict[str
         ctx.case(key=hashlib.sha1(line.encode()).hexdigest(), nontrivial=nontriv,
                  sample={"level": level, "history": history_summary(h), "impl": a, "model": b} if ctx.evaluations % 211 == 0 else None)
         if a != b:
-            ctx.mismatch({"L": "do_download", "R": "resolve_candidate", "S": "candidate-scan", "G": "get_dist-end-to-end", "X": "real-crash"}.get(level, level),
+            ctx.mismatch({"L": "do_download", "R": "resolve_candidate", "S": "candidate-scan", "G": "get_dist-end-to-end", "X": "real-crash", "M": "multi-repository-get_dist"}.get(level, level),
                          {"level": level, "history": history_to_json(h), "summary": history_summary(h)}, a, b)
 
 
@@ -804,6 +907,15 @@ def cli_scenarios(fx: Dict[str, Path]) -> List[Tuple[str, List[str], List[Tuple[
         ("missing-find-links", ["ok.txt", "--no-index", "--find-links", "/nonexistent/c15/links"], [("SBuildRepo", "ERepoInit")]),
         ("missing-source-dir", ["ok.txt", "--no-index", "--source", "/nonexistent/c15/src"], [("SBuildRepo", "EValueError")]),
         ("unannotated-solution", ["ok.txt", "--no-index", "--solution", "unannotated.txt"], [("SBuildRepo", "ERepoInit")]),
+        # requirements files carrying option lines ("@REQ:" = a per-case file; {optdir} = a directory with a
+        # file of the user's in it, made before the run: it must survive whatever the option line means)
+        ("reqfile-wheel-dir-success", ["@REQ:--wheel-dir {optdir}\nfoo"] + L, []),
+        ("reqfile-wheel-dir-no-candidate", ["@REQ:--wheel-dir {optdir}\nnothere"] + L, [("SCompile", "ENoCandidate")]),
+        ("reqfile-wheel-dir-bad-metadata", ["@REQ:--wheel-dir {optdir}\nbad"] + L, [("SCompile", "EMetadata")]),
+        ("reqfile-wheel-dir-unusable-repo", ["@REQ:--wheel-dir {optdir}\nfoo", "--no-index", "--find-links", "ok.txt"],
+         [("SBuildRepo", "EOSError")]),
+        ("reqfile-find-links", ["@REQ:--find-links " + str(fx["links"]) + "\nfoo", "--no-index"], []),
+        ("reqfile-index-url", ["@REQ:--index-url http://127.0.0.1:9/simple\nfoo"] + L, []),
         ("file-as-find-links", ["ok.txt", "--no-index", "--find-links", "ok.txt"], [("SBuildRepo", "EOSError")]),
         ("dir-as-solution", ["ok.txt", "--no-index", "--find-links", str(fx["links"]), "--solution", str(fx["links"])], [("SBuildRepo", "EOSError")]),
     ]
@@ -817,6 +929,14 @@ def run_cli_case(fx: Dict[str, Path], name: str, argv: List[str], user: bool, id
     tmp.mkdir()
     userdir = fx["root"] / f"userwd-{idx}"
     args = list(argv)
+    optdir = None
+    if args and args[0].startswith("@REQ:"):
+        optdir = fx["root"] / f"optdir-{idx}"
+        optdir.mkdir()
+        (optdir / "keep.txt").write_text("user data")
+        reqfile = fx["work"] / f"case-{idx}.txt"
+        reqfile.write_text(args[0][5:].replace("{optdir}", str(optdir)) + "\n")
+        args[0] = reqfile.name
     if user:
         userdir.mkdir()
         (userdir / "keep.txt").write_text("user data")
@@ -835,6 +955,7 @@ def run_cli_case(fx: Dict[str, Path], name: str, argv: List[str], user: bool, id
     cls = last.split(":")[0].split(".")[-1] if tb else ""
     return {"rc": p.returncode, "traceback": tb, "class": cls, "tmp_left": len(left),
             "user_exists": (userdir.exists() and (userdir / "keep.txt").exists()) if user else None,
+            "optdir_ok": None if optdir is None else (optdir / "keep.txt").exists() and sorted(x.name for x in optdir.iterdir()) == ["keep.txt"],
             "stderr_tail": p.stderr[-300:]}
 
 
@@ -885,6 +1006,8 @@ def run_cli(ctx: Ctx) -> None:
                                       "stderr": o["stderr_tail"]}, obs, exp)
         if user and o["tmp_left"] != 0:
             ctx.mismatch("cli-user-mode-tmp", {"scenario": name}, o["tmp_left"], 0)
+        if o["optdir_ok"] is False:
+            ctx.mismatch("cli-option-line-dir", {"scenario": name, "user_dir": user}, "directory named in the requirements file changed or gone", "untouched")
     run_bzl(ctx, fx)
 
 
@@ -1128,6 +1251,9 @@ def correspondence(ctx: Ctx) -> None:
         else:
             h["page_seq"] = [rng.choice([200, 404, 403, 500, 503, "F", 204]) for _ in range(rng.randrange(0, 5))]
         items.append((h, "G", "malformed" if malformed else "structured"))
+    # two indexes behind one MultiRepository (--index-url A --extra-index-url B): faults on A, other versions on B
+    for _ in range(ctx.n(150, 3000)):
+        items.append((gen_multi_history(rng), "M", "two-indexes"))
     # real crash points: a child process is SIGKILLed while _do_download is writing
     items += real_crashes(ctx, mods)
     run_histories(ctx, mods, oracle, items)
@@ -1235,6 +1361,35 @@ def oracle_history(mods, wd: Path, h: Dict[str, Any]) -> Optional[str]:
     return None
 
 
+def oracle_multi(mods, wd: Path, h: Dict[str, Any]) -> Optional[str]:
+    """Two indexes: a failed transfer on the FIRST one (5xx run longer than its retry budget on the page, or an
+    error status / broken stream / connection error on the file of its best candidate) must fail the run; the
+    tool must not come back with whatever the later index offers."""
+    a = h["repos"][0]
+    seq = a["page_seq"]
+    k = 0
+    while k < len(seq) and isinstance(seq[k], int) and 500 <= seq[k] < 600:
+        k += 1
+    o = impl_run(None, mods, h, "M", wd)
+    if k > a["retries"]:
+        if o["res"][0] == "OK":
+            return (f"index A answered its page with {k} 5xx statuses (retry budget {a['retries']}), yet the run "
+                    f"succeeded with {o['res'][1]} taken from the later index")
+        return None
+    if k < len(seq) and seq[k] == 200 and a["cands"]:
+        c = h["cands"][a["cands"][0]]
+        sd = h["seeds"].get(c["file"])
+        parts = c["res_real"].split("#sha256=")
+        adv = parts[1] if len(parts) > 1 else None
+        hit = sd is not None and adv is not None and hashlib.sha256(sd).hexdigest() == adv
+        first = h["script"][0] if h["script"] else ("F",)
+        bad = first[0] in ("F", "K") or (first[0] == "B" and 400 <= first[1] < 600)
+        if not hit and bad and o["res"][0] == "OK":
+            return (f"the transfer of index A's best candidate {c['file']} failed ({first[0]} {first[1] if len(first) > 1 else ''}), "
+                    f"yet the run succeeded with {o['res'][1]}")
+    return None
+
+
 def oracle_pages(mods) -> Optional[Dict[str, Any]]:
     P, E, MS, M, requests = mods
     for retries, k, code in [(r, k, c) for r in range(0, 5) for k in range(0, r + 3) for c in (500, 503, 599)]:
@@ -1259,7 +1414,8 @@ def oracle_pages(mods) -> Optional[Dict[str, Any]]:
 
 # scenarios whose failure class the handlers of compile_main cover: diagnostic + exit status 1, no traceback
 CLI_DIAGNOSTIC = ("no-candidate", "bad-metadata", "bad-input-path", "bad-input-syntax", "no-repository",
-                  "missing-find-links", "missing-source-dir", "unannotated-solution", "file-as-find-links", "dir-as-solution")
+                  "missing-find-links", "missing-source-dir", "unannotated-solution", "file-as-find-links", "dir-as-solution",
+                  "reqfile-wheel-dir-no-candidate", "reqfile-wheel-dir-bad-metadata", "reqfile-wheel-dir-unusable-repo")
 
 
 def oracle_cli(ctx: Ctx, only: Optional[Tuple[str, bool]] = None) -> Optional[Dict[str, Any]]:
@@ -1274,9 +1430,12 @@ def oracle_cli(ctx: Ctx, only: Optional[Tuple[str, bool]] = None) -> Optional[Di
             if user and not o["user_exists"]:
                 return {"kind": "cli", "input": {"scenario": name, "user_dir": True},
                         "why": "the wheel directory supplied with --wheel-dir was deleted"}
-            if not user and o["tmp_left"] != 0:
-                return {"kind": "cli", "input": {"scenario": name, "user_dir": False},
-                        "why": "the temporary wheel directory is still there after the run ended"}
+            if o["optdir_ok"] is False:
+                return {"kind": "cli", "input": {"scenario": name, "user_dir": user, "argv": argv},
+                        "why": "the directory named by a --wheel-dir line of the requirements file (a directory the user supplied) was deleted or emptied"}
+            if o["tmp_left"] != 0:
+                return {"kind": "cli", "input": {"scenario": name, "user_dir": user, "argv": argv},
+                        "why": "a temporary wheel directory is still in TMPDIR after the run ended"}
             if name in CLI_DIAGNOSTIC and (o["rc"] != 1 or o["traceback"]):
                 return {"kind": "cli", "input": {"scenario": name, "user_dir": user},
                         "why": f"the failure is not reported as a diagnostic with exit status 1 (rc={o['rc']}, traceback={o['traceback']})"}
@@ -1314,11 +1473,16 @@ def search(ctx: Ctx) -> Optional[Dict[str, Any]]:
         c = mm["case"]
         if isinstance(c, dict) and "history" in c:
             suspects.append(history_from_json(c["history"]))
-        if mm["where"] in ("cli-exit",) and isinstance(c, dict):
+        if mm["where"] in ("cli-exit", "cli-option-line-dir") and isinstance(c, dict):
             cli_first = (c["scenario"], c["user_dir"])
         if mm["where"] in ("bzl-exit", "bzl-user-mode-tmp") and isinstance(c, dict) and bzl_first is None:
             bzl_first = (c["scenario"], c["user_dir"])
     for h in suspects:
+        if "repos" in h:
+            why = oracle_multi(mods, wd, h)
+            if why:
+                return {"kind": "multi", "input": history_to_json(h), "why": why}
+            continue
         why = oracle_history(mods, wd, h)
         if why:
             return {"kind": "history", "input": history_to_json(h), "why": why}
@@ -1340,6 +1504,11 @@ def search(ctx: Ctx) -> Optional[Dict[str, Any]]:
     if r:
         return r
     rng = ctx.rng
+    for _ in range(ctx.n(400, 4000)):
+        h = gen_multi_history(rng)
+        why = oracle_multi(mods, wd, h)
+        if why:
+            return {"kind": "multi", "input": history_to_json(h), "why": why}
     for _ in range(ctx.n(1500, 15000)):
         h = gen_history(rng, rng.random() < 0.15)
         why = oracle_history(mods, wd, h)
@@ -1357,6 +1526,10 @@ def replay(ctx: Ctx, payload: Dict[str, Any]) -> bool:
         wd = ctx.tmpdir() / "oracle-wheeldir"
         wd.mkdir(exist_ok=True)
         return oracle_history(mods, wd, history_from_json(fi["input"])) is not None
+    if fi["kind"] == "multi":
+        wd = ctx.tmpdir() / "oracle-wheeldir"
+        wd.mkdir(exist_ok=True)
+        return oracle_multi(mods, wd, history_from_json(fi["input"])) is not None
     if fi["kind"] == "page":
         return oracle_pages(mods) is not None
     if fi["kind"] == "cli":
